@@ -15,6 +15,7 @@ def step (s : St) (line : String) : St × String :=
   | "varint" :: r => (s, Drv.varint r)
   | "pn" :: r => (s, Drv.pn r)
   | "amp" :: r => (s, Drv.amp r)
+  | "life" :: r => (s, Drv.life r)
   | "dedup" :: r => let (d, o) := Drv.dedup s.dedup r; ({ s with dedup := d }, o)
   | _ => (s, "bad-op")
 
